@@ -65,7 +65,7 @@ func validDoc(r *rand.Rand) []member {
 func Deploy(seed int64, n int) (*cq.Set, *cq.Interner) {
 	r := rand.New(rand.NewSource(seed))
 	in := cq.NewInterner()
-	set := &cq.Set{Stream: "c17e2e", Seed: seed, Imports: "Model.Api Model.Pod Model.Checks Model.Admission Model.Sources Model.Config Model.Deploy Corr.Adm Corr.Deploy", CaseTy: "dep_case", RunFn: "run_dep",
+	set := &cq.Set{Stream: "c17e2e", Seed: seed, Imports: "Model.Api Model.Pod Model.Checks Model.Admission Model.Wire Model.Sources Model.Config Model.Deploy Corr.Adm Corr.Deploy", CaseTy: "dep_case", RunFn: "run_dep",
 		Rule: "configuration documents (3/4 acceptable and valid with exemptions from the request pools, 1/4 from the C17 document generator: unknown/duplicated keys, unserved versions, malformed values), rendered as JSON or YAML, through load.LoadFromData and cmd/webhook/server.Setup with a client for a stub API server (production wiring: namespace lister backed by live GETs, live pod LISTs, default checks, Prometheus recorder); for each deployment 8 AdmissionReview bodies (pods, controllers, namespaces; raw JSON objects) are POSTed to HandleValidate with the namespace labels, pods and failures of the moment set on the stub; the model composes load, to_policy, validation, world_of and handle; distinct by (document, state, request); non-trivial = the server came up"}
 	inner := innerEvaluator(false)
 	deployments := n / 8
